@@ -273,3 +273,6 @@ def run(ctx):
     from rules import c19
     n = c19.rule_setters_verbatim(ctx, R="C07/requested-list-verbatim", only=("app_memory",))
     ctx.floor("C07/requested-list-verbatim", "set_app_memory", n, 1)
+    # the list holds the regions of THIS request only: descriptors recorded by an earlier (possibly aborted) request are cleared before
+    # anything is recorded (same rule instance as C19/stale-field, C01/one-flush-owner)
+    c19.rule_stale_field(ctx, rule="C07/no-stale-regions", only=("memory_blocks",))
